@@ -52,6 +52,8 @@ def oracle(rep):
     """Spec oracle on the implementation's replies only."""
     for op, line in zip(rep["ops"], rep["impl"]):
         f = op.split(" ")
+        if line.startswith("timeout"):
+            continue   # the rig did not answer in time (load): common.py re-runs such a case alone with a larger budget
         if f[0] == "n":
             kv = _kv(line)
             N, depth = int(f[4]), int(f[5])
